@@ -17,6 +17,7 @@ import (
 	"strings"
 	"sync"
 	"sync/atomic"
+	"syscall"
 	"testing"
 	"time"
 
@@ -107,20 +108,50 @@ func c05Dedup(ls []sq.Layout) []sq.Layout {
 	return out
 }
 
+// c05W4Quick is the structured width-4 list of the quick tier (the thorough tier runs ALL layouts with up to
+// 3 namespaces): every tail-padding amount behind a reserved and behind a user namespace, every position of a
+// namespace boundary for four namespace pairs, and squares with many namespaces.
+func c05W4Quick() []sq.Layout {
+	var ss []string
+	for _, x := range []string{"TX", "A"} {
+		for k := 0; k <= 16; k++ {
+			switch k {
+			case 0:
+				ss = append(ss, fmt.Sprintf("w4:%s16", x))
+			case 16:
+				ss = append(ss, "w4:TAIL16")
+			default:
+				ss = append(ss, fmt.Sprintf("w4:%s%d,TAIL%d", x, 16-k, k))
+			}
+		}
+	}
+	for _, p := range [][2]string{{"TX", "A"}, {"A", "B"}, {"PFB", "PRP"}, {"PRP", "C"}} {
+		for i := 1; i <= 15; i++ {
+			ss = append(ss, fmt.Sprintf("w4:%s%d,%s%d", p[0], i, p[1], 16-i))
+		}
+	}
+	ss = append(ss,
+		"w4:TX1,PFB1,PRP2,A3,B5,TAIL4", "w4:TX2,PFB2,A4,B4,C4", "w4:TX1,A1,B1,C1,TAIL12", "w4:PFB3,PRP1,A4,B3,C4,TAIL1",
+		"w4:TX1,PFB1,PRP1,A1,B1,C1,TAIL10", "w4:A5,B6,C5", "w4:TX4,A4,B4,TAIL4", "w4:A3p1,B6p2,C4p3,TAIL3", "w4:TX3,A2,C10,TAIL1",
+		"w4:PRP4,B7,TAIL5", "w4:TX1,PFB1,A13,TAIL1", "w4:A7,B1,C1,TAIL7")
+	return c05Dedup(sq.MustParse(ss...))
+}
+
 func c05Groups(tier string) (groups []c05Group, chunks []int) {
 	chunks = []int{0, -1, -7, 511, 512, 513, 4096} // negative: only for squares up to width 2
 	groups = []c05Group{
 		{Name: "w1-all-layouts", Layouts: sq.Layouts(1, 0, nil)},
 		{Name: "w2-all-layouts", Layouts: sq.Layouts(2, 0, nil)},
-		{Name: "w4-layouts-up-to-2-namespaces", Layouts: sq.Layouts(4, 2, nil)},
+		{Name: "w4-tail-sweeps-boundary-sweeps-and-mixed", Layouts: c05W4Quick()},
 	}
 	if tier == "thorough" {
 		chunks = []int{0, 1, 7, 511, 512, 513, 1000, 4096, 65536}
 		groups = append(groups,
-			c05Group{Name: "w2-all-layouts-namespace-padding", Layouts: c05Minus(sq.Layouts(2, 0, []int{1, 2}), sq.Layouts(2, 0, nil))},
-			c05Group{Name: "w4-layouts-3-namespaces", Layouts: c05Minus(sq.Layouts(4, 3, nil), sq.Layouts(4, 2, nil))},
+			c05Group{Name: "w4-all-layouts-up-to-2-namespaces", Layouts: c05Minus(sq.Layouts(4, 2, nil), c05W4Quick())},
 			c05Group{Name: "w8-every-tail-padding-amount", Layouts: c05TailSweep(8)},
 			c05Group{Name: "w8-fixed-list", Layouts: c05Minus(sq.Fixed8(), c05TailSweep(8))},
+			c05Group{Name: "w2-all-layouts-namespace-padding", Layouts: c05Minus(sq.Layouts(2, 0, []int{1, 2}), sq.Layouts(2, 0, nil))},
+			c05Group{Name: "w4-all-layouts-with-3-namespaces", Layouts: c05Minus(sq.Layouts(4, 3, nil), append(sq.Layouts(4, 2, nil), c05W4Quick()...))},
 		)
 	}
 	return groups, chunks
@@ -188,7 +219,7 @@ func TestVerifC05(t *testing.T) {
 		"an answer byte-identical (shares, proof nodes, range, type) to one already handed to the real verifier for the same request reuses that verdict; every distinct answer is really verified",
 		"the streamed square may omit trailing tail-padding shares (documented file format; eds.ReadShares substitutes them): the stream must be a share-aligned prefix of the original square whose omitted part is tail padding only, and eds.ReadShares/eds.ReadAccessor over it must give the stored square",
 		"ranges spanning more than one namespace may be refused (RangeNamespaceData is per namespace); tail-padding and parity namespaces may be refused by the validating layer; whatever is returned must be exact and verify",
-		"out-of-bounds rejection is demanded of the validating layer and of everything the Store/CachedStore/Getter hand out; unvalidated inner layers are not probed out of bounds",
+		"out-of-bounds rejection (an error: no data, no panic) is demanded of every stack containing the validating layer and of everything the Store/CachedStore/Getter hand out; unvalidated inner layers are not probed out of bounds",
 		"file system = tmpfs directory per square; no short reads, no concurrent writers (C07/C08 cover crash and concurrency)",
 	}
 	tmp := os.Getenv("VERIF_TMP")
@@ -221,7 +252,7 @@ func TestVerifC05(t *testing.T) {
 		return
 	}
 
-	deadline := rep.Deadline(75*time.Second, 17*time.Minute)
+	deadline := rep.Deadline(85*time.Second, 17*time.Minute)
 	total := newC05Stats()
 	sink := &c05SampleSink{seen: map[string]bool{}}
 	complete := true
@@ -229,6 +260,13 @@ func TestVerifC05(t *testing.T) {
 	determinismChecked := 0
 
 	for _, g := range groups {
+		if rep.Violations() > 0 {
+			// a violation ends the run after the group it was found in (groups go from small to large squares)
+			complete = false
+			fmt.Printf("VERIF-PROGRESS C05 group %s: skipped, violations found in an earlier group\n", g.Name)
+			results = append(results, c05GroupResult{Name: g.Name, Layouts: len(g.Layouts)})
+			continue
+		}
 		t0 := time.Now()
 		gs := newC05Stats()
 		// determinism self-check: the first layout of the group evaluated twice must give identical observations
@@ -295,6 +333,7 @@ func TestVerifC05(t *testing.T) {
 	rep.Set("positive_controls_served_equal_and_verified", total.positive)
 	rep.Set("out_of_bounds_probes", total.oobProbes)
 	rep.Set("out_of_bounds_rejected", total.oobRejected)
+	rep.Set("out_of_bounds_arguments_seen_below_a_validating_layer", total.oobLeaks)
 	rep.Set("verifier_executions", total.verifierReal)
 	rep.Set("verdicts_reused_for_byte_identical_answers", total.verifierMemo)
 	rep.Set("stream_classes", total.streams)
@@ -304,6 +343,12 @@ func TestVerifC05(t *testing.T) {
 	rep.Set("outcome_histogram", c05Top(total.outcomes, 80))
 	rep.Set("reader_chunk_sizes", chunks)
 	rep.Set("determinism_self_checks", determinismChecked)
+	var ru syscall.Rusage
+	if syscall.Getrusage(syscall.RUSAGE_SELF, &ru) == nil {
+		cpu := float64(ru.Utime.Sec+ru.Stime.Sec) + float64(ru.Utime.Usec+ru.Stime.Usec)/1e6
+		rep.Set("cpu_seconds_of_this_run", cpu)
+		fmt.Printf("VERIF-PROGRESS C05 cpu %.0fs over %d workers\n", cpu, vx.Workers())
+	}
 	for _, s := range sink.out {
 		rep.AddSample(s)
 	}
